@@ -28,7 +28,8 @@ EXPLANATION = (
     "attribute is merged into the instance and the per-instance result into the file counters on every path; (R4) the "
     "reference tool's exit gate; (R5) no local ErrorDescriptor that was handed to a callee or merged into is dropped "
     "unread, and no Severity-returning part reader is called with both its result and its descriptor ignored. "
-    "(R7) the instance step of both passes is not guarded by the stream state. (R8) a function that has recorded a violation (constant raise <= INCOMPLETE) in the caller's ErrorDescriptor returns, on every flag-consistent path, that descriptor's severity, a constant/local <= INCOMPLETE or the result of a call given the same descriptor - never a clean or unrelated severity that callers would assign over it. Not decided: that each violation class is recognised in every position of a file; confinement to the instance.")
+    "(R7) the instance step of both passes is not guarded by the stream state. (R8) a function that has recorded a violation (constant raise <= INCOMPLETE) in the caller's ErrorDescriptor returns, on every flag-consistent path, that descriptor's severity, a constant/local <= INCOMPLETE or the result of a call given the same descriptor - never a clean or unrelated severity that callers would assign over it. Not decided: that each violation class is recognised in every position of a file; confinement to the instance."
+    " (R6e, shared with C01 and C09) the item lookup of the enumeration readers compares whole strings - a prefix or length-limited comparison would accept an undeclared item as a declared one without any diagnostic.")
 
 T = os.path.join(os.path.dirname(__file__), "..", "tables")
 RAISERS = {"GreaterSeverity", "severity", "AppendFromErrorArg"}
@@ -329,3 +330,7 @@ def run(prog, res, tier):
     r2_relaxation(prog, res, sev)
     from rules import c03_more
     c03_more.run(prog, res, sev)
+    # an undeclared enumeration item that is accepted as a declared one is a violation nobody reports: the item lookup of the enumeration
+    # readers compares whole strings (rule shared with C01 / C09)
+    from rules import c09
+    c09.r6_enum_item_match(prog, res)
